@@ -201,6 +201,109 @@ theorem C05_blocks_whole (P : Prims) (hk : Bytes) (parts : List Bytes) (stream' 
   obtain ⟨m, hr, hv⟩ := C05_blocks_prefix P hk parts stream' r hu h
   rw [hr, hend m hv, List.take_length]
 
+/-- what `decrypt_kdbx4` does with the data the block reader hands on: decrypt, decompress, inner header -/
+def finish (P : Prims) (h : OuterHeader) (masterKey payloadEnc : Bytes) : Outcome Decrypted :=
+  match P.decO h.cipher masterKey h.iv payloadEnc with
+  | none => .err .integrity
+  | some payloadCompressed =>
+    match (if h.compression then P.gunzip payloadCompressed else some payloadCompressed) with
+    | none => .err .io
+    | some payload => do
+      let (ia, bodyStart) ← innerLoop (payload.length + 1) payload 0 {}
+      match ia.cipher, ia.key with
+      | some ic, some ik => .ok ⟨⟨h.minor, h.cipher, h.compression, ic, h.kdf⟩, ia.attachments, ik, payload.drop bodyStart⟩
+      | _, _ => .err .integrity
+
+/-- a file that opens: its header parses, the key derivation succeeds, the block reader accepts the rest of the file, and the
+    result is `finish` of what the block reader returned — for every byte string -/
+theorem decrypt_ok_factors (P : Prims) (data : Bytes) (comp : Bytes) (d : Decrypted)
+    (h : decrypt P data (some comp) = .ok d) :
+    ∃ hdr hstart tk stream r, parseOuterHeader data = .ok (hdr, hstart) ∧ runKdf P hdr.kdf hdr.kdfSeed comp = .ok tk
+      ∧ sliceE data (hstart + 64) data.length = .ok stream
+      ∧ readBlocks P (P.sha512 (hdr.masterSeed ++ tk ++ [1])) (stream.length + 1) stream 0 [] = .ok r
+      ∧ finish P hdr (P.sha256 (hdr.masterSeed ++ tk)) r = .ok d := by
+  unfold decrypt at h
+  simp only [bind, Outcome.bind] at h
+  cases hp : parseOuterHeader data with
+  | err e => rw [hp] at h; cases h
+  | panic s => rw [hp] at h; cases h
+  | ok p =>
+    obtain ⟨hdr, hstart⟩ := p
+    rw [hp] at h
+    simp only at h
+    cases hs1 : sliceE data 0 hstart with
+    | err e => rw [hs1] at h; cases h
+    | panic s => rw [hs1] at h; cases h
+    | ok headerData =>
+      rw [hs1] at h; simp only at h
+      cases hs2 : sliceE data hstart (hstart + 32) with
+      | err e => rw [hs2] at h; cases h
+      | panic s => rw [hs2] at h; cases h
+      | ok headerSha =>
+        rw [hs2] at h; simp only at h
+        cases hs3 : sliceE data (hstart + 32) (hstart + 64) with
+        | err e => rw [hs3] at h; cases h
+        | panic s => rw [hs3] at h; cases h
+        | ok headerHmac =>
+          rw [hs3] at h; simp only at h
+          cases hs4 : sliceE data (hstart + 64) data.length with
+          | err e => rw [hs4] at h; cases h
+          | panic s => rw [hs4] at h; cases h
+          | ok stream =>
+            rw [hs4] at h; simp only at h
+            split at h
+            · cases h
+            · cases hk : runKdf P hdr.kdf hdr.kdfSeed comp with
+              | err e => rw [hk] at h; cases h
+              | panic s => rw [hk] at h; cases h
+              | ok tk =>
+                rw [hk] at h; simp only at h
+                split at h
+                · cases h
+                · cases hrb : readBlocks P (P.sha512 (hdr.masterSeed ++ tk ++ [1])) (stream.length + 1) stream 0 [] with
+                  | err e => rw [hrb] at h; cases h
+                  | panic s => rw [hrb] at h; cases h
+                  | ok r =>
+                    rw [hrb] at h
+                    refine ⟨hdr, hstart, tk, stream, r, rfl, hk, hs4, hrb, ?_⟩
+                    unfold finish
+                    simp only [bind, Outcome.bind]
+                    exact h
+
+/-- **C05_whole_file**: let `f` be a file that opens to `d` under the credentials, its block stream carrying the blocks
+    `parts`, and `f'` any byte string with the same outer header (what the header MAC stands for: `C05_header_mac_verified`)
+    whose block stream — whatever the attacker substituted, swapped, duplicated, dropped, cut off or appended — satisfies the
+    idealisation of HMAC relative to `parts` (`Unforgeable`, and the empty block verifies at the end of the stream only).  Then
+    if `f'` opens at all, it opens to `d`: the same configuration, attachments, inner key and inner XML.  Never different
+    content, never a prefix. -/
+theorem C05_whole_file (P : Prims) (f f' comp : Bytes) (d d' : Decrypted) (parts : List Bytes) (hdr : OuterHeader) (hstart : Nat)
+    (hp : parseOuterHeader f = .ok (hdr, hstart)) (hsame : parseOuterHeader f' = .ok (hdr, hstart))
+    (hd : decrypt P f (some comp) = .ok d) (hd' : decrypt P f' (some comp) = .ok d')
+    (horig : ∀ hk stream r, sliceE f (hstart + 64) f.length = .ok stream →
+      readBlocks P hk (stream.length + 1) stream 0 [] = .ok r → r = parts.flatten)
+    (hu : ∀ hk stream', sliceE f' (hstart + 64) f'.length = .ok stream' →
+      Unforgeable P hk parts stream' ∧ ∀ i, Verified P hk stream' i [] → i = parts.length) :
+    d' = d := by
+  obtain ⟨hdr1, hstart1, tk, stream, r, hp1, hk, hs, hrb, hfin⟩ := decrypt_ok_factors P f comp d hd
+  obtain ⟨hdr2, hstart2, tk', stream', r', hp2, hk', hs', hrb', hfin'⟩ := decrypt_ok_factors P f' comp d' hd'
+  rw [hp] at hp1
+  injection hp1 with hp1
+  injection hp1 with h1 h2
+  subst h1; subst h2
+  rw [hsame] at hp2
+  injection hp2 with hp2
+  injection hp2 with h1 h2
+  subst h1; subst h2
+  rw [hk] at hk'
+  injection hk' with hk'
+  subst hk'
+  have hr : r = parts.flatten := horig _ stream r hs hrb
+  obtain ⟨hu1, hu2⟩ := hu (P.sha512 (hdr.masterSeed ++ tk ++ [1])) stream' hs'
+  have hr' : r' = parts.flatten := C05_blocks_whole P _ parts stream' r' hu1 hu2 hrb'
+  rw [hr', ← hr, hfin] at hfin'
+  injection hfin' with hfin'
+  exact hfin'.symm
+
 /-- a block stream that ends without the empty end-of-stream block is rejected (before the repair of F21 it was accepted:
     `Database::get_xml` returned a strict prefix of the inner XML of an uncompressed file cut at a block boundary) -/
 def witnessPrims : Prims :=
